@@ -371,5 +371,45 @@ theorem inserts_preserve {s s'' : Snap} (hok : AddOK s) (hi : Inserts s s'') :
       fun b c r hb => he b c r (eq_survives_add hok.1 h hb),
       fun m x hm => hl m x (lookup_survives_add hok.1 (addOK_ids hok) h hm)⟩
 
+/-- **`add` and `lookup` agree, on both paths**: whatever `add` returns, `lookup` of the same node afterwards names the same class -/
+theorem lookup_after_add_total {s s' : Snap} {n syn : Node} {f2o : SlotMap} {data : String} {a : AppId}
+    (hok : AddOK s) (h : add s n f2o syn data = some (s', a)) : ∃ m, lookup s' n = some { id := a.id, m := m } := by
+  unfold add at h
+  cases hl : lookup s n with
+  | some x =>
+    rw [hl] at h
+    simp only [Option.some.injEq, Prod.mk.injEq] at h
+    obtain ⟨hs, ha⟩ := h
+    subst hs; subst ha
+    exact ⟨x.m, hl⟩
+  | none =>
+    rw [hl] at h
+    exact lookup_after_add hok.1 (addOK_ids hok) h
+
+/-- a hit changes nothing at all; a miss changes nothing old -/
+theorem add_preserves {s s' : Snap} {n syn : Node} {f2o : SlotMap} {data : String} {a : AppId}
+    (hok : AddOK s) (h : add s n f2o syn data = some (s', a)) :
+    AddOK s' ∧ (∀ b r, find s b = some r → find s' b = some r) ∧
+    (∀ b c r, eq s b c = some r → eq s' b c = some r) ∧ (∀ m x, lookup s m = some x → lookup s' m = some x) := by
+  unfold add at h
+  cases hl : lookup s n with
+  | some x =>
+    rw [hl] at h
+    simp only [Option.some.injEq, Prod.mk.injEq] at h
+    obtain ⟨hs, _⟩ := h
+    subst hs
+    exact ⟨hok, fun _ _ h => h, fun _ _ _ h => h, fun _ _ h => h⟩
+  | none =>
+    rw [hl] at h
+    exact ⟨addOK_add hok h, fun b r hb => find_survives_add h hb, fun b c r hb => eq_survives_add hok.1 h hb,
+      fun m x hm => lookup_survives_add hok.1 (addOK_ids hok) h hm⟩
+
+/-- a second `add` of the same node is a hit: it returns an invocation of the same class and creates nothing -/
+theorem add_twice {s s' : Snap} {n syn syn2 : Node} {f2o f2o2 : SlotMap} {data data2 : String} {a : AppId}
+    (hok : AddOK s) (h : add s n f2o syn data = some (s', a)) :
+    ∃ m, add s' n f2o2 syn2 data2 = some (s', { id := a.id, m := m }) := by
+  obtain ⟨m, hm⟩ := lookup_after_add_total hok h
+  exact ⟨m, by unfold add; rw [hm]⟩
+
 end Snap
 end SV
